@@ -343,6 +343,7 @@ def run(ctx):
                       found_input=False, what="correspondence accepts_pairs <-> direct C07 oracle no longer holds")
     if tmeta:
         ctx.sample(tmeta[len(tmeta) // 2])
+    saw_counts(ctx)
     ctx.extra["exhaustive"] = False
 
 
@@ -350,3 +351,68 @@ def replay(ctx, path):
     rec = json.load(open(path))
     print(json.dumps(rec["case"], indent=1, default=str)[:2500])
     run(ctx)
+
+
+def saw_counts(ctx):
+    """'a requested number of annotators per sample is respected whenever enough annotators are available': SingleAnnotatorWrapper with
+    n_annotators_per_sample as an int or as an ARRAY (entry i = preferred number for the i-th ranked sample, the last entry for all later
+    ones - documented).  The wrapped strategy's ranking is recorded; the number of annotators per ranked sample must equal the
+    documented assignment (preferred number clipped to the available annotators, raised evenly while the batch is not full, cut at the
+    batch size)."""
+    from skactiveml.pool.multiannotator import SingleAnnotatorWrapper
+    from skactiveml.classifier import ParzenWindowClassifier
+    from . import c20
+    Rec = c20._rec_cls()
+    rng = ctx.rng("sawcounts")
+    for h in range(150 if ctx.is_quick else 1500):
+        n, na = int(rng.integers(3, 8)), int(rng.integers(2, 5))
+        X = rng.integers(0, 3, size=(n, 2)).astype(float)
+        y = rng.integers(0, 2, size=(n, na)).astype(float)
+        y[rng.random((n, na)) < 0.6] = np.nan
+        for i in range(n):                      # every sample keeps at least one annotator (rows without any are a recorded finding)
+            if not np.isnan(y[i]).any():
+                y[i, int(rng.integers(na))] = np.nan
+        avail = np.isnan(y).sum(axis=1)
+        seed = int(rng.integers(0, 1000))
+        bs = int(rng.integers(1, int(avail.sum()) + 2))
+        if h % 2 == 0:
+            pref_arg = int(rng.integers(1, na + 1))
+            pref_of = lambda i: pref_arg
+        else:
+            pref_arg = [int(v) for v in rng.integers(1, na + 1, size=int(rng.integers(1, 5)))]
+            pref_of = lambda i: pref_arg[min(i, len(pref_arg) - 1)]
+        c20.RECORD.clear()
+        saw = SingleAnnotatorWrapper(Rec(random_state=seed), random_state=seed)
+        rc = {"X": X.tolist(), "y": [[None if v != v else v for v in r] for r in y], "batch_size": bs, "n_annotators_per_sample": pref_arg, "seed": seed}
+        try:
+            pairs = with_timeout(lambda: saw.query(X=X, y=y, batch_size=bs, n_annotators_per_sample=pref_arg if isinstance(pref_arg, int) else np.array(pref_arg),
+                                                   clf=ParzenWindowClassifier(classes=[0, 1], random_state=seed)), 5.0)
+        except CaseTimeout:
+            ctx.violation("SingleAnnotatorWrapper", "timeout", "query did not return within 5 s", rc, what="SingleAnnotatorWrapper: query did not return (n_annotators_per_sample given)")
+            continue
+        except Exception as e:
+            ctx.violation("SingleAnnotatorWrapper", "exception:" + err_class(e), repr(e)[:300], rc, what=f"SingleAnnotatorWrapper raised {err_class(e)} (n_annotators_per_sample={pref_arg})")
+            continue
+        ctx.count("SingleAnnotatorWrapper_annotators_per_sample")
+        ranking = [int(i) for i in np.asarray(c20.RECORD[-1]["out"][0]).ravel()]
+        base = [min(int(avail[s_]), pref_of(i)) for i, s_ in enumerate(ranking)]
+        mx = [int(avail[s_]) for s_ in ranking]
+        while sum(base) < bs and base != mx:
+            base = [min(m_, b_ + 1) for m_, b_ in zip(mx, base)]
+        exp, rem = [], min(bs, int(avail.sum()))
+        for s_, b_ in zip(ranking, base):
+            t_ = min(b_, rem)
+            rem -= t_
+            if t_:
+                exp.append((s_, t_))
+        got = []
+        for s_, _a in np.asarray(pairs).tolist():
+            if got and got[-1][0] == s_:
+                got[-1] = (s_, got[-1][1] + 1)
+            else:
+                got.append((int(s_), 1))
+        if len(ranking) >= 3 and not isinstance(pref_arg, int):
+            ctx.nontriv(("sawcounts", X.tobytes(), y.tobytes(), bs, repr(pref_arg), seed))
+        if got != exp:
+            ctx.violation("SingleAnnotatorWrapper", "annotators_per_sample", f"(sample, number of annotators) in ranking order: returned {got}, documented {exp}; ranking {ranking}, available {mx}", rc,
+                          what=f"SingleAnnotatorWrapper: the requested number of annotators per sample is not respected (n_annotators_per_sample={pref_arg}, batch_size={bs})")
